@@ -72,6 +72,21 @@ theorem copyBytes_shape {cfg : Cfg} {s s' : State} {src dst len : Nat} {no : Boo
       · cases h
       · exact writeRange_shape h
 
+/-- the observable effect of "some bytes were copied, then the position of the current chunk was set to `q`" -/
+theorem setCurPos_after_copy (cfg : Cfg) {s s1 : State} {i : Nat} {c : Chunk} (hs : SameShape s s1)
+    (hc : CurChunk s i c) (q : Nat) :
+    curPos cfg (setCurPos s1 q) = q ∧ (setCurPos s1 q).cur = s.cur ∧ (setCurPos s1 q).live = s.live ∧
+    ∀ j : Nat, j ≠ i → ((setCurPos s1 q).chunks[j]?).map (·.pos) = (s.chunks[j]?).map (·.pos) := by
+  obtain ⟨c1, hc1, _, _, _⟩ := hs.curChunk hc
+  refine ⟨(hc1.setCurPos q).curPos cfg, ?_, ?_, fun j hj => ?_⟩
+  · rw [setCurPos_cur]; exact hs.cur
+  · rw [setCurPos_live]; exact hs.live
+  · rw [setCurPos_chunk hc1.cur, setPos_get_other (Ne.symm hj)]
+    have := hs.chunks j
+    cases h1 : s1.chunks[j]? <;> cases h2 : s.chunks[j]? <;> rw [h1, h2] at this <;>
+      simp only [Option.map_some, Option.map_none, Option.some.injEq, Prod.mk.injEq, reduceCtorEq] at this ⊢
+    exact this.2.2
+
 /-! ## `set_pos_addr_and_align_from` -/
 
 theorem setPosAlignFrom_up {cfg : Cfg} {s : State} {pos ea : Nat} (hup : cfg.up = true)
